@@ -295,6 +295,34 @@ func run(ci any, r *mon.Rec) {
 				x.verdict(out, "stall", min(p, L-1), "zero-read-timeout")
 			}
 		}
+		if c.Client == clientx.Serial {
+			// a babbling line: one byte per read, every read taking 25 ms (the port's own read timeout), for ever. The
+			// client's read timeout (40 ms) is the time the whole reply may take: after it the call ends, however regularly
+			// bytes keep dripping in. Verdict on the reads the client made - each took at least 25 ms, so more than five
+			// of them cannot fit into a timeout of 40 ms whatever the machine load.
+			pfx := []int{0, 1, 3}[rng.Intn(3)]
+			dr := xport.Script{Reply: append(append([]byte{}, reply...), libx.RandBytes(rng, 64)...), Tail: "deadline"}
+			if pfx > 0 {
+				dr.Steps = append(dr.Steps, xport.ReadStep{N: pfx})
+			}
+			for i := 0; i < 60; i++ {
+				dr.Steps = append(dr.Steps, xport.ReadStep{N: 1, SleepMs: 25})
+			}
+			out := clientx.Run(c.Client, req, dr, opt)
+			slowReads := 0
+			for _, e := range out.Events {
+				if e.Op == "read" && e.N == 1 {
+					slowReads++
+				}
+			}
+			r.Eval(1)
+			r.Cover("fault", "drip")
+			if out.Hung || slowReads > 6 {
+				r.Violate(c, "read-timeout-not-total", mon.Attrs{"client": "serial", "fc": int(c.FC)}, fmt.Sprintf("serial client fc%d, read timeout %v, a line that delivers one byte every 25 ms after a %d-byte prefix: the call made %d such reads (>= %d ms) before it ended (hung=%v err=%v)", c.FC, opt.ReadTimeout, pfx, slowReads, 25*(slowReads-1), out.Hung, out.Err))
+			} else if out.Err == nil && E-pfx >= 4 { // (at least four slow reads are needed before there is anything to parse)
+				r.Violate(c, "fault-reported-as-success", mon.Attrs{"client": "serial", "fc": int(c.FC), "fault": "drip"}, fmt.Sprintf("serial client fc%d: success after %d slow reads although the reply (%d bytes at 25 ms each) cannot arrive within the read timeout %v", c.FC, slowReads, L, opt.ReadTimeout))
+			}
+		}
 		// the connection dies right after the request was written (closed locally, cable pulled): the deadline setter fails
 		// before the read does - still an I/O failure, reported as the client error wrapping the cause
 		if c.Client != clientx.Serial {
